@@ -111,6 +111,14 @@ def tasks_for(run, module, prop, quick_depth=2, thorough_depth=3, lf_quick=0, lf
         for rec in G.validated_item_records() + G.failing_invalidation_records():
             tasks.append({"rec": rec, "depth": 2, "module": module, "prop": prop, "tier": run.tier,
                           "line_fault_depth": 0, "inits": 2, "max_states": 800})
+    if prop in ("C01", "C04"):
+        for rec in G.property_served_records() + G.uncopyable_records():
+            tasks.append({"rec": rec, "depth": 2, "module": module, "prop": prop, "tier": run.tier,
+                          "line_fault_depth": 0, "inits": 3, "max_states": 800})
+    if prop in ("C02",):
+        for rec in G.uncopyable_records() + G.private_state_records():
+            tasks.append({"rec": rec, "depth": 2, "module": module, "prop": prop, "tier": run.tier,
+                          "line_fault_depth": 0, "inits": 3, "max_states": 800})
     if prop in ("C02", "C08"):
         for rec in G.policy_inheritance_records():
             tasks.append({"rec": rec, "depth": 2, "module": module, "prop": prop, "tier": run.tier,
